@@ -92,7 +92,7 @@ def sensitivity(args):
                 status = "DETECTED" if "REPRODUCED" in rr.stdout and "NOT-REPRODUCED" not in rr.stdout else "DETECTED-BUT-REPLAY-FAILED"
             elif r.returncode == 2:
                 status = "HARNESS-ERROR"
-            keys = [l.strip() for l in r.stdout.splitlines() if "key=" in l][:2]
+            keys = [l.strip() for l in r.stdout.splitlines() if "key=" in l and not l.startswith("KNOWN-FINDING")][:2]
             results.append((name, prop, origin, status, time.time() - t0))
             print(f"{name} [{prop}, {origin}]: {status} ({time.time()-t0:.0f}s) {keys[0] if keys else ''}", flush=True)
             if status == "HARNESS-ERROR":
